@@ -11,7 +11,8 @@ use alpenglow::types::{Slice, SliceIndex, Slot};
 use alpenglow::all2all::TrivialAll2All;
 use alpenglow::consensus::{Alpenglow, ConsensusMessage, EpochInfo, ValidatorEpochInfo};
 use alpenglow::crypto::aggsig;
-use alpenglow::crypto::merkle::SliceMerkleTree;
+use alpenglow::crypto::Hash;
+use alpenglow::crypto::merkle::{SliceMerkleTree, SliceRoot};
 use alpenglow::disseminator::TrivialDisseminator;
 use alpenglow::network::{UdpNetwork, localhost_ip_sockaddr};
 use alpenglow::repair::{RepairRequest, RepairResponse};
@@ -117,6 +118,8 @@ struct Set {
     commitment: Option<SliceCommitment>,
     /// the commitment bytes as laid out by `SliceCommitment::new`: slot | slice index | last flag | root
     cbytes: Vec<u8>,
+    /// every leaf of the signed Merkle tree (also the ones no shred of the set carries) with the proof the tree creates for it
+    leaves: Vec<(Vec<u8>, Vec<[u8; 32]>)>,
 }
 
 struct Ctx {
@@ -151,10 +154,11 @@ impl Ctx {
         let set = self.sets.len();
         let (hp, ps, hs) = parent.map(|(p, h)| (1, p, h)).unwrap_or((0, 0, 0));
         self.rec.step(&format!("mk {set} {key} {slot} {idx} {} {hp} {ps} {hs} {len} {a} {b}", last as u8), "ok");
-        let wires = shreds.iter().map(|s| Wire::of(s.as_shred())).collect();
+        let wires: Vec<Wire> = shreds.iter().map(|s| Wire::of(s.as_shred())).collect();
         let commitment = shreds[0].commitment();
         let cbytes = commitment.as_ref().to_vec();
-        self.sets.push(Set { key, shreds, wires, commitment: Some(commitment), cbytes });
+        let leaves = wires.iter().map(|w: &Wire| (w.data.clone(), w.path.clone())).collect();
+        self.sets.push(Set { key, shreds, wires, commitment: Some(commitment), cbytes, leaves });
         set
     }
 
@@ -208,7 +212,8 @@ impl Ctx {
             self.rec.count(&format!("mkx:commitment-bytes-as-documented={}", c.as_ref() == &cbytes[..]));
         }
         self.rec.count(&format!("mkx:path-len={}", wires[0].path.len()));
-        self.sets.push(Set { key, shreds: vec![], wires, commitment, cbytes });
+        let leaves = leaves.iter().enumerate().map(|(i, d)| (d.clone(), tree.create_proof(i).as_ref().iter().map(|h| h.as_ref().try_into().expect("32 bytes")).collect())).collect();
+        self.sets.push(Set { key, shreds: vec![], wires, commitment, cbytes, leaves });
         set
     }
 
@@ -272,12 +277,19 @@ impl Ctx {
         (w, content_changed, sig_changed)
     }
 
-    /// the set one of whose shreds `w` is, up to tag and signature
+    /// the (first) set one of whose shreds `w` is, up to tag and signature
     fn genuine_set(&self, w: &Wire) -> Option<usize> {
-        self.sets.iter().position(|st| match st.wires.get(w.shred_index as usize) {
-            Some(g) => w.slot == g.slot && w.slice_index == g.slice_index && w.is_last == g.is_last && w.data == g.data && w.path == g.path,
-            None => false,
-        })
+        self.genuine_sets(w).first().copied()
+    }
+
+    /// all sets one of whose shreds `w` is, up to tag and signature (they have the same commitment bytes)
+    fn genuine_sets(&self, w: &Wire) -> Vec<usize> {
+        (0..self.sets.len())
+            .filter(|&k| match self.sets[k].wires.get(w.shred_index as usize) {
+                Some(g) => w.slot == g.slot && w.slice_index == g.slice_index && w.is_last == g.is_last && w.data == g.data && w.path == g.path,
+                None => false,
+            })
+            .collect()
     }
 
     fn validate(&self, w: &Wire, cached: Option<&SliceCommitment>, pk: usize) -> (Verdict, Option<ValidatedShred>) {
@@ -303,9 +315,10 @@ impl Ctx {
             return Verdict::InvalidSignature;
         };
         let _ = content_changed;
-        // (several sets can commit to the same bytes - the same slice signed by different keys: the signature is valid
-        //  when it is the signature of ANY of them under the key it is verified with)
-        let sig_valid = self.sets.iter().any(|x| x.cbytes == self.sets[g].cbytes && !x.wires.is_empty() && w.sig == x.wires[0].sig && pk == x.key);
+        // two sets can have the very same content (an empty payload without parent and marker for the same slot and
+        // slice index, signed by two keys: same commitment bytes, different signatures): the signature is valid if it is
+        // the one of ANY set with this content, made by the key it is checked against
+        let sig_valid = self.genuine_sets(w).iter().any(|&g| w.sig == self.sets[g].wires[0].sig && pk == self.sets[g].key);
         let cache_is_own = cache.map(|c| self.sets[c].cbytes == self.sets[g].cbytes);
         match cache_is_own {
             // the identical commitment is cached: the check of the signature may be skipped - for the very signature
@@ -398,6 +411,73 @@ impl Ctx {
             self.class = fnv(self.class, out);
             let plen = w.path.len();
             self.rec.oracle(got == Verdict::InvalidSignature, "short-tree-index-alias-accepted", || format!("{op}: shred {i} of a slice whose signed Merkle tree has height {plen} ({plen}-hash paths; slot {}, slice {}, signed by key {}), relabelled as index {n} = {i} + k * 2^{plen} (payload, path and derived root unchanged): try_new gave {got:?}, a shred is authentic only at the index its path proves", w.slot, w.slice_index, self.sets[set].key));
+        }
+    }
+
+    /// `Shred::verify_path_only(root)` (public API; the caller-level Merkle verification that trusts the shred index) on
+    /// the mutated wire image of shred `i` of `set`, against the signed root of set `rs` with `rmask` XORed into it.
+    /// Oracle only (not in the compared stream). The property (C15, first sentence, for the caller in shredder.rs): it
+    /// verifies exactly if the payload is the leaf at the claimed shred index of the tree with that root and the path is
+    /// the proof of that position - whatever the height of the signed tree; the header and the signature take no part.
+    fn vpo(&mut self, set: usize, i: usize, muts: &[Mut], rs: usize, rmask: Option<&[u8; 32]>, why: &str, rng: &mut Rng) {
+        let (w, _, _) = self.mutate(set, i, muts, rng);
+        let Some(shred) = w.decode() else { return };
+        let mut rb: Vec<u8> = self.sets[rs].cbytes[17..49].to_vec();
+        if let Some(m) = rmask { for (b, x) in rb.iter_mut().zip(m) { *b ^= x; } }
+        let root_genuine = rb[..] == self.sets[rs].cbytes[17..49];
+        let root: SliceRoot = wincode::deserialize::<Hash>(&rb).expect("32 bytes are a Hash").into();
+        let got = catch(|| shred.verify_path_only(&root));
+        let exp = root_genuine && self.sets[rs].leaves.get(w.shred_index as usize).is_some_and(|(d, p)| *d == w.data && *p == w.path);
+        self.rec.count(&format!("verify-path-only:{}:{}", if exp { "valid" } else { "invalid" }, match &got { Ok(b) => b.to_string(), Err(_) => "panic".into() }));
+        let ms = muts.iter().map(Mut::op).collect::<Vec<_>>().join(" ");
+        let key = if exp { "verify-path-only-rejects-valid" } else { "verify-path-only-unsound" };
+        let (nl, plen) = (self.sets[rs].leaves.len(), w.path.len());
+        self.rec.oracle(got == Ok(exp), key, || format!("shred {i} of set {set} [{ms}] (claimed shred index {}, {plen}-hash path).verify_path_only(root signed in set {rs}: {nl} leaves{}) gave {got:?}, the property demands {exp} ({why})", w.shred_index, if root_genuine { "" } else { ", with a mask XORed into the root" }));
+    }
+
+    /// the `verify_path_only` clauses for shred `i` of `set` (any tree shape): the genuine shred verifies under its own
+    /// root and only there; any change of index (incl. aliases i + k * 2^h, also beyond a short tree's width), payload,
+    /// path element, path length or root makes it fail
+    fn vpo_round(&mut self, set: usize, other: usize, rng: &mut Rng) {
+        let nsh = self.sets[set].wires.len();
+        let h = self.sets[set].wires[0].path.len();
+        let i = rng.below(nsh as u64) as usize;
+        self.vpo(set, i, &[], set, None, "genuine shred, own root", rng);
+        self.vpo(set, nsh - 1, &[], set, None, "genuine shred, own root", rng);
+        // the header and the signature are not part of the Merkle claim
+        self.vpo(set, i, &[Mut::Slot(1 + rng.below(1000)), Mut::SigJunk], set, None, "genuine payload, index and path (header / signature changed)", rng);
+        self.vpo(set, i, &[], other, None, "root of another slice", rng);
+        // the root with a mask XORed into one, two or four of its 8-byte words
+        for nw in [1usize, 2, 4] {
+            let mut m = [0u8; 32];
+            let (o, x) = (rng.below(8) as usize, 1 + rng.below(255) as u8);
+            let mut ws = [0usize, 1, 2, 3];
+            rng.shuffle(&mut ws);
+            for &wd in &ws[..nw] { m[8 * wd + o] = x; }
+            self.vpo(set, i, &[], set, Some(&m), "changed root", rng);
+        }
+        // claimed index: neighbour, any other, aliases modulo the tree width (h < 6: still a decodable index)
+        self.vpo(set, i, &[Mut::Sidx((i as u64) ^ 1)], set, None, "wrong index", rng);
+        self.vpo(set, i, &[Mut::Sidx((i as u64 + 1 + rng.below(63)) % 64)], set, None, "wrong index", rng);
+        if h < 6 {
+            for k in [1usize, (64 >> h) - 1, 1 + rng.below((64 >> h) as u64 - 1) as usize] {
+                self.vpo(set, i, &[Mut::Sidx((i + (k << h)) as u64)], set, None, "index alias i + k * 2^height of a short tree", rng);
+            }
+        }
+        // payload, path element, path length
+        let dl = self.sets[set].wires[i].data.len();
+        if dl > 0 { self.vpo(set, i, &[Mut::Dat(rng.below(dl as u64) as usize)], set, None, "payload bit flipped", rng); }
+        self.vpo(set, i, &[if rng.chance(1, 2) { Mut::DlenP } else { Mut::DlenM }], set, None, "payload length changed", rng);
+        if h > 0 {
+            self.vpo(set, i, &[Mut::PeJunk(rng.below(h as u64) as usize, rng.below(4) as usize)], set, None, "path element replaced", rng);
+            self.vpo(set, i, &[Mut::Plen(rng.below(h as u64) as usize)], set, None, "path truncated", rng);
+            self.vpo(set, i, &[Mut::Plen(h - 1)], set, None, "path truncated", rng);
+        }
+        self.vpo(set, i, &[Mut::Ppush(rng.below(4) as usize)], set, None, "path extended", rng);
+        // another shred's path / payload
+        if nsh > 1 {
+            let j = (i + 1 + rng.below(nsh as u64 - 1) as usize) % nsh;
+            self.vpo(set, j, &[Mut::Sidx(i as u64)], set, None, "another shred of the slice under this index", rng);
         }
     }
 
@@ -634,8 +714,15 @@ fn main() {
         }
         if plen < 6 {
             let n = (j + (1 << plen) * (1 + rng.below((64 >> plen) as u64 - 1) as usize)) % 64;
-            if n != j { cx.val_alias(x, j, n, 1, &mut rng); }
+            if n != j {
+                cx.val_alias(x, j, n, 1, &mut rng);
+                cx.vpo(x, j, &[Mut::Sidx(n as u64)], x, None, "index alias i + k * 2^height of a short tree", &mut rng);
+            }
         }
+        // `Shred::verify_path_only` on the regular 64-leaf slice, the conflicting one and the tree of another shape
+        cx.vpo_round(0, 1, &mut rng);
+        cx.vpo_round(1, x, &mut rng);
+        cx.vpo_round(x, 0, &mut rng);
         let class = cx.class;
         cx.rec.end_case(class, true);
     }
@@ -756,7 +843,12 @@ fn main() {
         for j in 0..nslices {
             let mut idx: Vec<usize> = (0..64).collect();
             rng.shuffle(&mut idx);
-            for &i in idx.iter().take(32 + rng.below(20) as usize) { feed.push((j, i)); }
+            // every second case the slice the conflict is about receives exactly the 32 shreds that reconstruct it: no
+            // genuine shred of it arrives between its reconstruction and the conflicting shred (the equivocation record
+            // must survive reconstruction on its own)
+            let extra = rng.below(20) as usize;
+            let extra = if c % 2 == 0 && j == target { 0 } else { extra };
+            for &i in idx.iter().take(32 + extra) { feed.push((j, i)); }
         }
         rng.shuffle(&mut feed);
         // per slice one victim: the lowest-index shred of the feed that is not the first of its slice to arrive. Just
